@@ -174,5 +174,41 @@ pub fn families() -> Vec<Box<dyn Family>> {
                 case(&a, &b, alg, &[Dl::NoneGiven, Dl::Expired, Dl::Fuel(rng.below(3) as u64)], out);
             },
         ),
+        family(
+            "long_lines",
+            "a changed line with MANY word tokens: both sides have a line with exactly t tokens for t around 255 / 256 / 999 / 1000 / 1001 / 1023 / 1024 / 2048 / 4096 (words separated by single blanks, so t = 2*words - 1 + terminator), one or two words changed, terminators differing between the sides in half of the cases; plus (every 10th case) a line with 70000 distinct words and one changed x {str,[u8]} x 3 inline deadlines",
+            false,
+            1,
+            |cfg| cfg.n(60, 1_200),
+            |idx, cfg, out| {
+                let mut rng = Rng::for_case(cfg.seed, "c16.long_lines", idx);
+                let huge = idx % 10 == 9 && !cfg.tiny;
+                let targets = [255usize, 256, 257, 511, 512, 999, 1000, 1001, 1002, 1023, 1024, 1025, 2047, 2048, 2049, 4095, 4096, 4097];
+                let t = if cfg.tiny { 7 } else if huge { 140_001 } else { targets[(idx % targets.len() as u64) as usize] + rng.below(2) * 0 };
+                // t tokens = w words + (w-1) blanks + 1 terminator  =>  w = t / 2
+                let w = (t / 2).max(1);
+                let distinct = huge || rng.chance(1, 2);
+                let words: Vec<String> = (0..w).map(|i| if distinct { format!("w{}", i) } else { format!("w{}", rng.below(30)) }).collect();
+                let mut words2 = words.clone();
+                for _ in 0..1 + rng.below(2) {
+                    let i = rng.below(words2.len());
+                    words2[i] = format!("changed{}", rng.below(100));
+                }
+                let t1 = *rng.pick(&["\n", "\r\n", "\r"]);
+                let t2 = if rng.chance(1, 2) { t1 } else { *rng.pick(&["\n", "\r\n", "\r", ""]) };
+                let head = if rng.chance(1, 2) { "same first line\n" } else { "" };
+                // an odd token count needs one extra blank-separated piece
+                let pad = if t % 2 == 0 { "" } else { " end" };
+                let a = format!("{}{}{}{}", head, words.join(" "), pad, t1);
+                let b = format!("{}{}{}{}", head, words2.join(" "), pad, t2);
+                out.sample(|| format!("line with {} words (target {} tokens), terminators {:?} / {:?}", w, t, t1, t2));
+                out.count("long_line_cases");
+                if huge {
+                    out.count("lines_with_70000_distinct_words");
+                }
+                let alg = ALGS[rng.below(2)];
+                case(a.as_bytes(), b.as_bytes(), alg, &[Dl::NoneGiven, Dl::Default, Dl::Fuel(rng.below(3) as u64)], out);
+            },
+        ),
     ]
 }
